@@ -118,6 +118,11 @@ pub struct BatchStats {
     pub sleeps: u64,
     pub yields: u64,
     pub rescued: u64,
+    pub file_ops: u64,
+    pub file_points: u64,
+    pub file_holds: u64,
+    pub phases: u64,
+    pub kills: u64,
     pub us_spawn: u64,
     pub us_total: u64,
     pub sched_nontrivial: BTreeSet<u64>,
@@ -193,6 +198,11 @@ pub fn run_batch(
                     bs.sleeps += g("slp");
                     bs.yields += g("yld");
                     bs.rescued += g("rsc");
+                    bs.file_ops += g("fo");
+                    bs.file_points += g("fp");
+                    bs.file_holds += g("fh");
+                    bs.phases += g("phases");
+                    bs.kills += g("kills");
                     bs.us_spawn += g("us_spawn");
                     bs.us_total += g("us_total");
                     bs.max_inflight = bs.max_inflight.max(g("mi"));
@@ -352,6 +362,7 @@ fn batch_json(b: &BatchStats) -> Value {
         "shared_access_hits": b.shared_hits, "futex_waits_intercepted": b.futex_waits, "virtual_clock_reads": b.clock_reads,
         "library_threads_adopted": b.lib_threads, "timed_waits_ended_by_the_scheduler": b.timeouts, "sleeps_intercepted": b.sleeps, "yields_intercepted": b.yields,
         "wakeups_from_outside_the_simulator": b.rescued,
+        "library_file_operations_redirected_to_the_private_disk": b.file_ops, "file_operation_decision_points": b.file_points, "writers_held_back_after_a_file_operation": b.file_holds, "process_incarnations": b.phases, "processes_killed_mid_run": b.kills,
         "runs_with_intra_call_preemption": b.runs_with_preempt,
         "distinct_schedules_with_intra_call_preemption": b.sched_nontrivial.len(),
         "max_calls_in_flight": b.max_inflight,
@@ -677,6 +688,38 @@ fn sample_from_trace(pool: &Pool, ix: &PoolIndex, base: u64, stream: u64, kind: 
 fn case_of_violation(pool: &Pool, ix: &PoolIndex, base: u64, stream: u64, kind: RunKind, i: usize, rec: &Value, no_intra: bool) -> Option<Case> {
     // the record tells which policy family ran; regenerate with the matching `allow_intra`
     let pn = rec.get("pn").and_then(|x| x.as_str()).unwrap_or("");
+    if kind == RunKind::Restart {
+        // a chained run: the phases before the failing one with the switch lists they recorded, the failing one
+        // with its own; later phases never ran
+        let k = rec.get("phase").and_then(|x| x.as_u64()).unwrap_or(0) as usize;
+        for allow in if no_intra { vec![false] } else { vec![true, false] } {
+            let s = workload::make_spec(pool, ix, seed_for(base, stream, i), kind, allow);
+            let mut specs: Vec<&RunSpec> = Vec::new();
+            let mut cur = Some(&s);
+            while let Some(sp) = cur {
+                specs.push(sp);
+                cur = sp.next.as_deref();
+            }
+            if k >= specs.len() || specs[k].policy.name() != pn {
+                continue;
+            }
+            let mut phases: Vec<Case> = Vec::new();
+            let before = rec.get("phases_before").and_then(|x| x.as_array()).cloned().unwrap_or_default();
+            for j in 0..k {
+                let b = before.get(j)?;
+                let start = b.get("start").and_then(|x| x.as_u64()).unwrap_or(0) as u32;
+                let sw = sim::switches_from_json(b.get("switches")?)?;
+                phases.push(Case::from_spec(pool, specs[j], start, sw));
+            }
+            let start = rec.get("start")?.as_u64()? as u32;
+            let sw = sim::switches_from_json(rec.get("switches")?)?;
+            let mut last = Case::from_spec(pool, specs[k], start, sw);
+            last.kill_step = 0;
+            phases.push(last);
+            return Some(Case::from_phases(&phases, k));
+        }
+        return None;
+    }
     let mut spec: Option<RunSpec> = None;
     for allow in if no_intra { vec![false] } else { vec![true, false] } {
         let s = workload::make_spec(pool, ix, seed_for(base, stream, i), kind, allow);
@@ -737,7 +780,7 @@ pub fn check(o: &CheckOpts) -> i32 {
     // isolated nondeterminism: two isolated evaluations of the same call differ
     for (k, (call, a, b)) in ost.isolated_nondeterminism.iter().enumerate().take(3) {
         raw_violations += 1;
-        let case = Case { threads: vec![vec![call.clone()]], churn: vec![vec![]], start: 0, switches: vec![], jumps: vec![vec![]], depths: vec![vec![]], cpus: vec![0], entropy: 0 };
+        let case = Case { threads: vec![vec![call.clone()]], churn: vec![vec![]], start: 0, switches: vec![], jumps: vec![vec![]], depths: vec![vec![]], cpus: vec![0], entropy: 0, kill_step: 0, prefix: Vec::new(), next: None };
         let rr = RunResult {
             status: "violation".into(),
             rec: json!({"violation": {"kind": "isolated_nondeterminism", "call": call.to_json(), "expected": a, "observed": b, "client": 0, "call_no": 0}}),
@@ -757,7 +800,7 @@ pub fn check(o: &CheckOpts) -> i32 {
     }
     for (k, (call, a, b)) in amb.mismatches.iter().enumerate().take(2) {
         raw_violations += 1;
-        let case = Case { threads: vec![vec![call.clone()]], churn: vec![vec![]], start: 0, switches: vec![], jumps: vec![vec![]], depths: vec![vec![]], cpus: vec![0], entropy: 0 };
+        let case = Case { threads: vec![vec![call.clone()]], churn: vec![vec![]], start: 0, switches: vec![], jumps: vec![vec![]], depths: vec![vec![]], cpus: vec![0], entropy: 0, kill_step: 0, prefix: Vec::new(), next: None };
         let rr = RunResult {
             status: "violation".into(),
             rec: json!({"violation": {"kind": "isolated_nondeterminism", "detail": "differs between a forked child of the driver and a freshly exec'd process with another environment / address-space layout", "call": call.to_json(), "expected": a, "observed": b, "client": 0, "call_no": 0}}),
@@ -830,6 +873,9 @@ pub fn check(o: &CheckOpts) -> i32 {
     // ---- crowd: K callers parked mid-call at once (K around 2..32), further callers nested inside, random finishing order
     let crowd_n = ((if t.name == "thorough" { 30_000.0 } else { 2500.0 }) * o.scale) as usize;
     let crowd = run_batch("crowd_overflow", &pool, &ix, o.seed, 4, RunKind::Crowd, crowd_n, w, Duration::from_millis(6000), Some(Instant::now() + Duration::from_secs(if t.name == "thorough" { 150 } else { 12 })), false, 0, 4, false);
+    // ---- restart: two or three process incarnations on one private disk (files are state between calls too)
+    let restart_n = ((if t.name == "thorough" { 12000.0 } else { 1500.0 }) * o.scale) as usize;
+    let restart = run_batch("restart_disk", &pool, &ix, o.seed, 5, RunKind::Restart, restart_n, w, Duration::from_secs(60), Some(Instant::now() + Duration::from_secs(if t.name == "thorough" { 180 } else { 12 })), false, 0, 4, false);
     // ---- stall-and-wrap: a caller parked mid-call while another makes 2^8 / 2^16 (+ d) distinct calls of the same
     //      evaluator, over a filler pool of trivially distinct formulas ("<i>+@")
 
@@ -897,6 +943,7 @@ pub fn check(o: &CheckOpts) -> i32 {
         (wide, 2, RunKind::Wide, None),
         (long, 3, RunKind::Long { calls: long_calls }, None),
         (crowd, 4, RunKind::Crowd, None),
+        (restart, 5, RunKind::Restart, None),
     ];
     for (b, pi, stream, kind) in stall_batches {
         all_batches.push((b, stream, kind, Some(pi)));
@@ -931,7 +978,7 @@ pub fn check(o: &CheckOpts) -> i32 {
             let orig_policy = rr.rec.get("pn").cloned().unwrap_or(Value::Null);
             // a case of tens of thousands of calls costs seconds per candidate: do not spend the budget on it
             let budget = Duration::from_secs(if case.total_calls() > 20_000 { t.min_budget_s.min(15) } else { t.min_budget_s });
-            let (mc, mr, ms) = minimise(case, rr, &mut oc, w, budget, 6000);
+            let (mc, mr, ms) = if case.prefix.is_empty() && case.next.is_none() { minimise(case, rr, &mut oc, w, budget, 6000) } else { crate::minimise::minimise_chain(case, rr, &mut oc, w, budget, 6000) };
             // confirm: 5 fresh replays
             let reps: Vec<Case> = (0..5).map(|_| mc.clone()).collect();
             let rres = run_cases(&reps, &mut oc, w, case_timeout(&mc));
@@ -1068,7 +1115,7 @@ pub fn check(o: &CheckOpts) -> i32 {
             });
             let _ = std::fs::write(&path, serde_json::to_string_pretty(&v).unwrap_or_default());
             let class = ("any".to_string(), kind.to_string());
-            let case = Case { threads: vec![], churn: vec![], start: 0, switches: vec![], jumps: vec![], depths: vec![], cpus: vec![], entropy: 0 };
+            let case = Case { threads: vec![], churn: vec![], start: 0, switches: vec![], jumps: vec![], depths: vec![], cpus: vec![], entropy: 0, kill_step: 0, prefix: Vec::new(), next: None };
             let kn = match_known(&known, &class, &case);
             findings.push(Finding { file: path, class, case, known: kn, confidence: format!("{} of {} Miri seeds fail", m.failing_seeds.len(), m.seeds) });
         }
@@ -1141,6 +1188,10 @@ pub fn check(o: &CheckOpts) -> i32 {
                 "sleeps_intercepted": batches.iter().map(|b| b.sleeps).sum::<u64>(),
                 "yields_intercepted": batches.iter().map(|b| b.yields).sum::<u64>(),
                 "wakeups_from_outside_the_simulator": batches.iter().map(|b| b.rescued).sum::<u64>(),
+                "library_file_operations_redirected_to_the_private_disk": batches.iter().map(|b| b.file_ops).sum::<u64>(),
+                "process_incarnations_in_restart_runs": batches.iter().map(|b| b.phases).sum::<u64>(),
+                "processes_killed_mid_run": batches.iter().map(|b| b.kills).sum::<u64>(),
+                "private_disk_per_item": crate::disk::probe(),
                 "shared_access_hits": batches.iter().map(|b| b.shared_hits).sum::<u64>(),
                 "block_ticks": batches.iter().map(|b| b.block_ticks).sum::<u64>(),
                 "work_differs_calls": wd,
@@ -1190,6 +1241,10 @@ pub fn check(o: &CheckOpts) -> i32 {
         let (tm, sl, yl, rs): (u64, u64, u64, u64) = batches.iter().fold((0, 0, 0, 0), |a, b| (a.0 + b.timeouts, a.1 + b.sleeps, a.2 + b.yields, a.3 + b.rescued));
         if lt + tm + sl + yl + rs > 0 {
             println!("threads and timers of the library itself: {} threads adopted by the scheduler, {} sleeps and {} yields turned into decision points, {} timed waits ended by the scheduler, {} wake-ups from outside the simulator", lt, sl, yl, tm, rs);
+        }
+        let fo: u64 = batches.iter().map(|b| b.file_ops).sum();
+        if fo > 0 {
+            println!("files of the library itself: {} path operations redirected to the runs' private disks; {} process incarnations in restart runs, {} of them killed mid-run", fo, batches.iter().map(|b| b.phases).sum::<u64>(), batches.iter().map(|b| b.kills).sum::<u64>());
         }
     }
     if evaluations == 0 {
@@ -1314,7 +1369,7 @@ pub fn selftest(o: &CheckOpts, seeds: usize) -> i32 {
     let ix = workload::index_pool(&mut pool);
     let tmo = Duration::from_millis(3000);
     let mut bad = 0;
-    for (stream, kind, n) in [(21u64, RunKind::Short, seeds), (22, RunKind::Wide, seeds / 10), (23, RunKind::Long { calls: 500 }, 32), (24, RunKind::Crowd, seeds / 10)] {
+    for (stream, kind, n) in [(21u64, RunKind::Short, seeds), (22, RunKind::Wide, seeds / 10), (23, RunKind::Long { calls: 500 }, 32), (24, RunKind::Crowd, seeds / 10), (25, RunKind::Restart, seeds / 10)] {
         let a = run_batch("a", &pool, &ix, o.seed, stream, kind, n, o.workers, tmo, None, true, usize::MAX, u32::MAX, false);
         let b = run_batch("b", &pool, &ix, o.seed, stream, kind, n, 5, tmo, None, true, usize::MAX, u32::MAX, false);
         let c = run_batch("c", &pool, &ix, o.seed, stream, kind, n / 10, 1, tmo, None, true, 0, u32::MAX, false);
@@ -1350,7 +1405,23 @@ pub fn selftest(o: &CheckOpts, seeds: usize) -> i32 {
             let spec = workload::make_spec(&pool, &ix, seed_for(o.seed, stream, *i), kind, true);
             let start = rec.get("start").and_then(|x| x.as_u64()).unwrap_or(0) as u32;
             let sw = sim::switches_from_json(rec.get("switches").unwrap_or(&Value::Null)).unwrap_or_default();
-            cases.push(Case::from_spec(&pool, &spec, start, sw));
+            if spec.next.is_some() {
+                // a chained run: every phase with the schedule it recorded
+                let traces = rec.get("phase_traces").and_then(|x| x.as_array()).cloned().unwrap_or_default();
+                let mut phases: Vec<Case> = Vec::new();
+                let mut cur = Some(&spec);
+                let mut j = 0;
+                while let Some(sp) = cur {
+                    let st = traces.get(j).and_then(|b| b.get("start")).and_then(|x| x.as_u64()).unwrap_or(0) as u32;
+                    let sw = traces.get(j).and_then(|b| b.get("switches")).and_then(sim::switches_from_json).unwrap_or_default();
+                    phases.push(Case::from_spec(&pool, sp, st, sw));
+                    cur = sp.next.as_deref();
+                    j += 1;
+                }
+                cases.push(Case::from_phases(&phases, 0));
+            } else {
+                cases.push(Case::from_spec(&pool, &spec, start, sw));
+            }
             want.push(rec.get("h").and_then(|x| x.as_str()).unwrap_or("").to_string());
         }
         let res = run_cases(&cases, &mut oc, o.workers, Duration::from_secs(5));
@@ -1360,6 +1431,9 @@ pub fn selftest(o: &CheckOpts, seeds: usize) -> i32 {
             if h != want[k] {
                 rm += 1;
                 if rm <= 6 {
+                    if std::env::var("SC_DEBUG_DUMP").is_ok() {
+                        let _ = std::fs::write(format!("/root/scratch/mismatch_{}.json", k), serde_json::to_string(&json!({"case": cases[k].to_json(), "rec": a.traces.get(k).map(|(_, r)| r.clone())})).unwrap_or_default());
+                    }
                     println!("  replay mismatch: case {} want {} got {} status {:?} policy {:?}", k, want[k], h, r.as_ref().map(|r| r.status.clone()), a.traces.get(k).and_then(|(_, r)| r.get("pn").cloned()));
                 }
             }
@@ -1403,6 +1477,7 @@ pub fn debug_seed(o: &CheckOpts, stream: u64, idx: usize, reps: usize, pad: usiz
         Ok("long") => RunKind::Long { calls: 8000 },
         Ok("wide") => RunKind::Wide,
         Ok("crowd") => RunKind::Crowd,
+        Ok("restart") => RunKind::Restart,
         _ => RunKind::Short,
     };
     if std::env::var("SC_DEBUG_BUCKETS").is_ok() {
@@ -1428,6 +1503,7 @@ pub fn debug_seed(o: &CheckOpts, stream: u64, idx: usize, reps: usize, pad: usiz
         if r.status != "ok" {
             println!("rec: {}", r.rec.to_string().chars().take(600).collect::<String>());
         }
+        println!("   fo={} phases={} kills={} calls={}", r.rec["fo"], r.rec["phases"], r.rec["kills"], r.rec["calls"]);
         println!("{} {} h={} sw={} shh={} fw={} ticks={} switches={}", spec.policy.name(), r.status, r.hash(), r.rec["sw"], r.rec["shh"], r.rec["fw"], r.rec["ticks"], r.rec["switches"].to_string().chars().take(300).collect::<String>());
     }
     0
@@ -1457,7 +1533,13 @@ pub fn hunt(o: &CheckOpts, file: &str, n: usize) -> i32 {
     let (mut pool, ost) = oracle::oracle_pass(cand, o.workers, 0);
     let ix = workload::index_pool(&mut pool);
     println!("hunt: {} calls kept of {}", ost.kept, ost.candidates);
-    let b = run_batch("hunt", &pool, &ix, o.seed, 31, RunKind::Short, n, o.workers, Duration::from_millis(1500), None, false, 0, 3, false);
+    let hk = match std::env::var("SC_DEBUG_KIND").as_deref() {
+        Ok("restart") => RunKind::Restart,
+        Ok("crowd") => RunKind::Crowd,
+        Ok("wide") => RunKind::Wide,
+        _ => RunKind::Short,
+    };
+    let b = run_batch("hunt", &pool, &ix, o.seed, 31, hk, n, o.workers, Duration::from_millis(if hk == RunKind::Short { 1500 } else { 60_000 }), None, false, 0, 3, false);
     println!("{}", batch_json(&b));
     for (i, rec) in b.violations.iter().take(3) {
         println!("violation in run {}: policy {} {}", i, rec["pn"], rec["violation"]);
